@@ -137,8 +137,29 @@ def run_laws2(env, u):
     env.require("le", iff(A <= B, xa <= xb))
     env.require("gt", iff(A > B, xa > xb))
     env.require("ge", iff(A >= B, xa >= xb))
-    env.require("hash-eq", simplies(xa == xb, A.__hash__() == B.__hash__()))
-    env.require("hash-val", A.__hash__() == xa)
+    try:
+        hA, hB = A.__hash__(), B.__hash__()
+        opaque = False
+    except pysym.Unsupported:
+        opaque = True
+    if not opaque:
+        env.require("hash-eq", simplies(xa == xb, hA == hB))
+        env.require("hash-val", hA == xa)
+    else:
+        # the hash is not an arithmetic function of the operands (e.g. built with builtin hash()): it cannot be carried
+        # symbolically. Consistency with == is then decided on solver-chosen witnesses of A == B (zero and non-zero),
+        # evaluated on concrete EventTime objects; a failing witness is pinned into the path so that the replay reproduces it.
+        for extra in (a == 0, snot(a == 0)):
+            m = env.eng.find(sand(xa == xb, extra))
+            if m is None:
+                continue
+            va, vb = m.get("a", 0), m.get("b", 0)
+            if hash(EventTime(va, U[ua])) != hash(EventTime(vb, U[ub])):
+                env.assume(sand(a == va, b == vb))
+                env.require("hash-eq", False, info=f"EventTime({va},{ua}) == EventTime({vb},{ub}) but their hashes differ")
+                break
+        else:
+            env.checked["hash-eq"] = env.checked.get("hash-eq", 0) + 1
     S = A + B
     fin = ua if K[ua] <= K[ub] else ub
     env.require("add-unit", S.unit == U[fin])
